@@ -58,6 +58,13 @@ pub unsafe extern "C" fn mprotect(addr: *mut libc::c_void, len: libc::size_t, pr
     libc::syscall(libc::SYS_mprotect, addr, len, prot) as i32
 }
 
+/// profile C10: injector rounds also force this function to `true`
+static BOOL_MODE: std::sync::atomic::AtomicBool = std::sync::atomic::AtomicBool::new(false);
+#[inline(never)]
+pub fn sh_flag() -> bool {
+    black_box(false)
+}
+
 #[inline(never)]
 fn os_fake(x: u32) -> u32 {
     black_box(x) + 40
@@ -129,6 +136,11 @@ pub struct TScenario {
 }
 
 pub fn props_for(family: &str, profile: &str) -> Vec<&'static str> {
+    if profile == "C10" {
+        // forced booleans under the exclusion/hand-over schedules: an accepted value is what every
+        // call returns while its injector lives, whatever other threads attempt meanwhile
+        return vec!["C10"];
+    }
     match family {
         "excl" => vec!["C04"],
         "count" => vec!["C06"],
@@ -301,8 +313,15 @@ fn do_round(tid: usize, ri: usize, r: &Round, handover_holder: bool) {
             if c0 != 2 {
                 viol("guard-obtained-before-previous-holder-restored", format!("{what}: on obtaining the injector ct_fn(1) returned {c0}, not the original 2"));
             }
+            let bool_mode = BOOL_MODE.load(std::sync::atomic::Ordering::SeqCst);
+            if bool_mode && black_box(sh_flag as fn() -> bool)() {
+                viol("guard-obtained-before-previous-holder-restored", format!("{what}: on obtaining the injector sh_flag() returned the value forced by somebody else"));
+            }
             yields(r.yields);
             inj.when_called(ipp_sched::func!(fn (sh_fn)() -> u32)).will_execute_raw(fake_for(tid));
+            if bool_mode {
+                inj.when_called(ipp_sched::func!(fn (sh_flag)() -> bool)).will_return_boolean(true);
+            }
             let mut counted = false;
             if handover_holder && matches!(r.exit.as_str(), "overcall" | "rejected" | "unsatisfied") {
                 N_EXPECT.store(1, Ordering::SeqCst);
@@ -314,6 +333,9 @@ fn do_round(tid: usize, ri: usize, r: &Round, handover_holder: bool) {
                 let v = black_box(sh_fn as fn() -> u32)();
                 if v != 100 + (tid % 6) as u32 {
                     viol("injector-holder-observed-foreign-behaviour", format!("{what}: the holder's own fake should answer {} but the call returned {v}", 100 + tid % 6));
+                }
+                if bool_mode && !black_box(sh_flag as fn() -> bool)() {
+                    viol("forced-boolean-not-returned", format!("{what}: sh_flag() was forced to true through this injector but returned false"));
                 }
             }
             yields(r.yields);
@@ -393,6 +415,9 @@ fn do_round(tid: usize, ri: usize, r: &Round, handover_holder: bool) {
                 if c0 != 2 {
                     viol("preventer-holder-observed-fake", format!("{what}: while holding a preventer ct_fn(1) returned {c0}, not the original 2"));
                 }
+                if BOOL_MODE.load(std::sync::atomic::Ordering::SeqCst) && black_box(sh_flag as fn() -> bool)() {
+                    viol("preventer-holder-observed-fake", format!("{what}: while holding a preventer sh_flag() returned a forced value"));
+                }
             }
             IN_CS.fetch_sub(1, Ordering::SeqCst);
             if r.exit == "panic" {
@@ -422,6 +447,7 @@ fn do_round(tid: usize, ri: usize, r: &Round, handover_holder: bool) {
 }
 
 pub fn execute(sc: &TScenario, sh: &Shared) -> Value {
+    BOOL_MODE.store(sc.profile == "C10", std::sync::atomic::Ordering::SeqCst);
     let entry0: Vec<u8> = unsafe { std::slice::from_raw_parts(sh_fn as fn() -> u32 as usize as *const u8, 16).to_vec() };
     let cfg = Config { seed: sc.sched_seed, strategy: parse_strategy(&sc.strategy), max_steps: 200_000, forced: None };
     let sh_ptr = sh as *const Shared as usize;
@@ -594,7 +620,7 @@ pub fn execute(sc: &TScenario, sh: &Shared) -> Value {
         out_v.push(json!({"tag": t, "props": props, "detail": d}));
     }
     let entry1: Vec<u8> = unsafe { std::slice::from_raw_parts(sh_fn as fn() -> u32 as usize as *const u8, 16).to_vec() };
-    if entry1 != entry0 || sh_fn() != 6 || ct_fn(1) != 2 {
+    if entry1 != entry0 || sh_fn() != 6 || ct_fn(1) != 2 || sh_flag() {
         out_v.push(json!({"tag": "not-restored-after-all-threads-finished", "props": props, "detail": format!("shared function entry {:02x?}, originally {:02x?}", entry1, entry0)}));
     }
     let mut probes = serde_json::Map::new();
